@@ -37,7 +37,7 @@ import (
 func TestC26(t *testing.T) {
 	m := mon.New(t, "C26")
 	defer m.Done()
-	m.Rule("mode = i mod #modes over every non-AEAD cipher x MAC and each AEAD cipher; streams of 1..5 packets written by the real writer (random K/H/session id, hash and start seq incl. wrap). bitflip: EVERY single-bit flip of the first packet (first-packet payload 1..120 quick / ..300 thorough) + 4 boundary bytes x 8 bits of each later packet; trunc: EVERY cut point of a 1..3 packet stream; pktfault: drop/dup/swap/replay from other direction/replay from other keys/inject/overwrite/append/multi-byte corruption; hostile: frames protected by sshref with valid keys but declared packet_length in {0..32, maxPacket-16..maxPacket+16, 2*maxPacket, 2^31-1, 2^31, 2^32-20..2^32-1} over a short body, boundary lengths with padding_length in {0..5, 255, length-2..length+1}, legal lengths with illegal padding_length, oversized but otherwise well-formed packets (first legal length above maxPacket, +0..2000, 2x..8x), and fully random streams; bufedge: untampered and tampered (one bit flip, one truncation) streams whose packet sizes walk across the readers' buffer-capacity edges: first-packet payload 900..1100 (every value for CBC modes, stride 7 otherwise), ascending connections growing by exactly one alignment block / by 1..64 bytes per packet, descending-then-ascending, sizes around 1024/2048/4096/32768 +- MAC +- block as first packet and ascending; conc-tamper: 8 distinct readers (same algorithm / different algorithms) read untampered and bit-flipped streams at once, outcomes per the same rule, once normally and once under GOMAXPROCS(1); longreplay: the reader's per-packet counter (32-bit sequence number for every MAC and chacha20-poly1305; 64-bit AES-GCM invocation counter; 128-bit AES-CTR counter block; raw packet ciphers with caller-chosen IV) is positioned 0..2 steps below every carry boundary (low 8/16/.. bits all ones), sshref seals 5 packets across it (control: accepted) and for every position q a packet sealed for q' = q +- 2^n (n = 8,16,24[,32..56|64]) which must be rejected; none: random/crafted plaintext streams into the real client transport before key exchange. Verdict per the first-difference rule (see test doc). distinct = (fault kind, region, framing class); non-trivial = a tampered stream reached the real reader")
+	m.Rule("mode = i mod #modes over every non-AEAD cipher x MAC and each AEAD cipher; streams of 1..5 packets written by the real writer (random K/H/session id, hash and start seq incl. wrap). bitflip: EVERY single-bit flip of the first packet (first-packet payload 1..120 quick / ..300 thorough) + 4 boundary bytes x 8 bits of each later packet; trunc: EVERY cut point of a 1..3 packet stream; pktfault: drop/dup/swap/replay from other direction/replay from other keys/inject/overwrite/append/multi-byte corruption; hostile: frames protected by sshref with valid keys but declared packet_length in {0..32, maxPacket-16..maxPacket+16, 2*maxPacket, 2^31-1, 2^31, 2^32-20..2^32-1} over a short body, boundary lengths with padding_length in {0..5, 255, length-2..length+1}, legal lengths with illegal padding_length, oversized but otherwise well-formed packets (first legal length above maxPacket, +0..2000, 2x..8x), and fully random streams; bufedge: untampered and tampered (one bit flip, one truncation) streams whose packet sizes walk across the readers' buffer-capacity edges: first-packet payload 900..1100 (every value for CBC modes, stride 7 otherwise), ascending connections growing by exactly one alignment block / by 1..64 bytes per packet, descending-then-ascending, sizes around 1024/2048/4096/32768 +- MAC +- block as first packet and ascending; conc-tamper: 8 distinct readers (same algorithm / different algorithms) read untampered and bit-flipped streams at once, outcomes per the same rule, once normally and once under GOMAXPROCS(1); longreplay: the reader's per-packet counter (32-bit sequence number for every MAC and chacha20-poly1305; 64-bit AES-GCM invocation counter; raw packet ciphers with caller-chosen IV, AES-CTR counter block also placed below a carry) is positioned 0..2 steps below every carry boundary (low 8/16/.. bits all ones), sshref seals 5 packets across it (control: accepted) and for every position q a packet sealed for q' = q +- (2^n + e) (n = 8,16,24, e in -1..1; for GCM also n = 32..56, e in -2..2) which must be rejected; none: random/crafted plaintext streams into the real client transport before key exchange. Verdict per the first-difference rule (see test doc). distinct = (fault kind, region, framing class); non-trivial = a tampered stream reached the real reader")
 	m.Assume("which bytes are authenticated is taken from RFC 4253 §6.4, RFC 5647 §7, OpenSSH PROTOCOL (EtM, chacha20poly1305): all of them; forging a 96..512-bit MAC by chance is treated as impossible")
 	m.Assume("allocation is measured with runtime.MemStats.TotalAlloc around a single ReadPacket call in a single-goroutine test")
 
